@@ -11,7 +11,8 @@
 (***************************************************************************)
 EXTENDS Integers, Sequences, TLC, Json
 
-CONSTANTS StopOnWriteError,   \* FALSE: as coded (a failed write is skipped, the time stamp is still refreshed, the writer goes on)
+CONSTANTS SweepStopsWriter,   \* FALSE: as coded (ReleaseIfStale on a lock that is not stale does nothing, whoever calls it)
+          StopOnWriteError,   \* FALSE: as coded (a failed write is skipped, the time stamp is still refreshed, the writer goes on)
           MaxFaults,          \* transient failures of the heartbeat write
           P,        \* heartbeat period in ticks
           J,        \* worst lateness of a heartbeat write (ticks)
@@ -63,6 +64,12 @@ BeatFails == /\ hpc = "holding" /\ writerOn /\ now >= nextBeat /\ hbAt >= 0 /\ f
                 ELSE writerOn' = TRUE /\ hbAt' = now /\ nextBeat' = now + P
              /\ UNCHANGED <<now, dirAt, hpc, diedAt, deathPoint, reported>>
 
+\* housekeeping: the holder itself runs ReleaseIfStale over the locks it knows - its own, live, lock among them.  Not stale:
+\* nothing happens (SweepStopsWriter: the call cancels the lock object's own activity first, the heartbeat writer with it)
+SelfSweep == /\ hpc = "holding" /\ writerOn /\ ~LooksStale
+             /\ writerOn' = ~SweepStopsWriter
+             /\ UNCHANGED <<now, dirAt, hbAt, hpc, nextBeat, diedAt, deathPoint, reported, faults>>
+
 Die == /\ hpc \in {"made", "holding"}
        /\ deathPoint' = (IF hpc = "made" THEN "after-mkdir" ELSE IF hbAt < 0 THEN "before-first-beat" ELSE "steady")
        /\ hpc' = "dead" /\ diedAt' = now
@@ -71,7 +78,7 @@ Die == /\ hpc \in {"made", "holding"}
 Observe == /\ reported' = (IF LooksStale THEN "stale" ELSE "fresh")
            /\ UNCHANGED <<now, dirAt, hbAt, hpc, nextBeat, diedAt, deathPoint, faults, writerOn>>
 
-Next == Tick \/ Mkdir \/ Confirm \/ Beat \/ BeatFails \/ Die \/ Observe
+Next == Tick \/ Mkdir \/ Confirm \/ Beat \/ BeatFails \/ SelfSweep \/ Die \/ Observe
 Spec == Init /\ [][Next]_vars
 
 \* sign of life as the statement means it
